@@ -5,8 +5,11 @@
      antismash/common/secmet/features/protocluster.py   Protocluster.add_cds (definition genes)
      antismash/common/secmet/record.py                  add_cds_feature (duplicate location, bisect
          insertion), _link_cds_to_parent (bisect window over the regions + exhaustive scan of the
-         other collections), get_cds_features_within_location (compound branch, find_start_in_list,
-         forward scan with the "next gene lies inside this one" continuation and the early break),
+         other collections), get_cds_features_within_location AS REPAIRED (findings F13a nested_genes /
+         F13b origin_spanning_gene): compound branch (a gene crossing the origin stays with the last part that
+         reaches it), the leading run of origin-crossing genes, find_start_in_list (bisect from that run + the
+         equal-start back-step), the earlier genes that end after the query's start (with_overlapping only),
+         the forward walk up to the query's end, one test of every candidate),
          add_protocluster / add_candidate_cluster / add_subregion / add_region (gene pairing).
    Locations, locations_overlap, location_contains_other, location_bridges_origin and
    split_origin_bridging_location come from Common/Loc.v.  Area locations are inputs (how a
@@ -64,34 +67,50 @@ Definition bisect {A} (p : A -> bool) (l : list A) (lo : nat) : nat :=
   bisect_go p l (S (length l)) lo (length l).
 Definition insert_at {A} (i : nat) (x : A) (l : list A) : list A := firstn i l ++ x :: skipn i l.
 
-(* ---------- get_cds_features_within_location ---------- *)
-(* while index > 0 and test(features[index - 1]): index -= 1 *)
-Fixpoint backstep (test : gene -> bool) (l : list gene) (i : nat) : nat :=
+(* ---------- get_cds_features_within_location (repaired) ---------- *)
+(* while index > first and test(features[index - 1]): index -= 1 *)
+Fixpoint backstep (first : nat) (test : gene -> bool) (l : list gene) (i : nat) : nat :=
   match i with
   | O => O
-  | S j => match nth_error l j with
-           | Some g => if test g then backstep test l j else i
+  | S j => if Nat.leb i first then i else
+           match nth_error l j with
+           | Some g => if test g then backstep first test l j else i
            | None => i
            end
   end.
 
-Definition find_start (q : loc) (features : list gene) (include_overlaps : bool) : nat :=
-  let i0 := bisect (fun g => feat_lt (gloc g) q) features 0 in
-  let i1 := backstep (fun g => lstart (gloc g) =? lstart q) features i0 in
-  if include_overlaps then backstep (fun g => overlap (gloc g) q) features i1 else i1.
-
-(* the forward scan from `index` *)
-Fixpoint scan (q : loc) (wo : bool) (l : list gene) : list gene :=
+(* first = 0; while first < len(features) and features[first].crosses_origin(): first += 1 *)
+Fixpoint lead_cross (l : list gene) : nat :=
   match l with
-  | [] => []
-  | f :: r =>
-    if contains q (gloc f) then f :: scan q wo r
-    else if wo && overlap (gloc f) q then f :: scan q wo r
-    else match r with
-         | n :: _ => if contains (gloc f) (gloc n) then scan q wo r else []
-         | [] => []
-         end
+  | f :: r => if bridges (gloc f) then S (lead_cross r) else O
+  | [] => O
   end.
+
+(* find_start_in_list(location, features, first): bisect_left(features, dummy, lo=first), then back over the genes with
+   the query's start *)
+Definition find_start (q : loc) (features : list gene) (first : nat) : nat :=
+  let i0 := bisect (fun g => feat_lt (gloc g) q) features first in
+  backstep first (fun g => lstart (gloc g) =? lstart q) features i0.
+
+Fixpoint take_while {A} (p : A -> bool) (l : list A) : list A :=
+  match l with
+  | x :: r => if p x then x :: take_while p r else []
+  | [] => []
+  end.
+
+(* feature.is_contained_by(location) or with_overlapping and feature.overlaps_with(location) *)
+Definition hit (q : loc) (wo : bool) (g : gene) : bool :=
+  contains q (gloc g) || (wo && overlap (gloc g) q).
+
+(* candidates = features[:first]
+   if with_overlapping: candidates.extend(f for f in features[first:index] if f.location.end > location.start)
+   while index < len(features) and features[index].location.start < location.end: candidates.append(features[index]) *)
+Definition candidates (features : list gene) (q : loc) (wo : bool) : list gene :=
+  let first := lead_cross features in
+  let index := find_start q features first in
+  firstn first features
+  ++ (if wo then filter (fun f => lstart q <? lend (gloc f)) (firstn (index - first) (skipn first features)) else [])
+  ++ take_while (fun f => lstart (gloc f) <? lend q) (skipn index features).
 
 (* a query with a negative start is a FeatureLocation and is replaced by [0, max(1, end)) *)
 Definition clamp (q : loc) : loc :=
@@ -99,7 +118,7 @@ Definition clamp (q : loc) : loc :=
 
 Definition lookup_simple (features : list gene) (q : loc) (wo : bool) : list gene :=
   let q' := clamp q in
-  scan q' wo (skipn (find_start q' features wo) features).
+  filter (hit q' wo) (candidates features q' wo).
 
 Definition gmem (g : gene) (l : list gene) : bool := existsb (fun x => gid x =? gid g) l.
 
@@ -110,12 +129,18 @@ Fixpoint extend_new (acc found : list gene) : list gene :=
   | f :: r => if gmem f acc then extend_new acc r else extend_new (acc ++ [f]) r
   end.
 
+(* one part of a compound query:
+   features = [f for f in features if not (f.crosses_origin() and f in found)]; features.extend(new ones of found) *)
+Definition compound_step (features : list gene) (acc : list gene) (p : part) : list gene :=
+  let found := lookup_simple features [p] true in
+  extend_new (filter (fun f => negb (bridges (gloc f) && gmem f found)) acc) found.
+
 Definition lookup (features : list gene) (q : loc) (wo : bool) : list gene :=
   match features with
   | [] => []
   | _ =>
     if is_compound q then
-      let feats := fold_left (fun acc p => extend_new acc (lookup_simple features [p] true)) q [] in
+      let feats := fold_left (compound_step features) q [] in
       if wo then feats else filter (fun f => contains q (gloc f)) feats
     else lookup_simple features q wo
   end.
@@ -286,19 +311,21 @@ Definition exec (ops : list op) : res state :=
   fold_left (fun acc o => do st <- acc; step st o) ops (Ok empty_state).
 
 (* ---------- specification-side functions (decidable, used at run time and in the theorems) ---------- *)
-Definition hit (q : loc) (wo : bool) (g : gene) : bool :=
-  contains q (gloc g) || (wo && overlap (gloc g) q).
-
-(* guard of C08_lookup: every gene is one non-empty part, and in list order starts and ends
-   are non-decreasing (no gene is strictly nested in another) *)
+(* hypotheses of C08_lookup on the gene list (every generated record satisfies them; no layout is excluded):
+   gene_ok - what the Feature constructor enforces plus non-empty exons: at least one part, every part has
+   0 <= start < end, and an origin-crossing location can be split at the origin (otherwise Feature.__lt__ raises);
+   key_sorted - the list is in the order of Feature.__lt__ (start, length), which add_cds_feature maintains
+   (lemma build_sorted) *)
 Definition simple_gene (g : gene) : bool :=
   match gloc g with [p] => ps p <? pe p | _ => false end.
-Fixpoint monotone (l : list gene) : bool :=
+Definition gene_ok (g : gene) : bool :=
+  nonempty (gloc g) && forallb (fun p => (0 <=? ps p) && (ps p <? pe p)) (gloc g) && key_ok (gloc g).
+Fixpoint key_sorted (l : list gene) : bool :=
   match l with
-  | a :: ((b :: _) as t) => (lstart (gloc a) <=? lstart (gloc b)) && (lend (gloc a) <=? lend (gloc b)) && monotone t
+  | a :: ((b :: _) as t) => negb (feat_lt (gloc b) (gloc a)) && key_sorted t
   | _ => true
   end.
-Definition layout_ok (genes : list gene) : bool := forallb simple_gene genes && monotone genes.
+Definition layout_ok (genes : list gene) : bool := forallb gene_ok genes && key_sorted genes.
 Definition query_ok (q : loc) : bool :=
   match q with [p] => ps p <? pe p | _ => false end.
 
@@ -359,7 +386,8 @@ Definition eState (st : state) : list Z :=
 Definition build_genes (gs : list gene) : res state := exec (map OGene gs).
 
 (* spec verdict of a look-up: [spec_ok; guard; class]   class 1 = nested genes / compound gene,
-   2 = a gene spans the origin (kstart < 0) *)
+   2 = a gene spans the origin (kstart < 0); the classes name the repaired findings F13a / F13b in the report of a
+   violation, nothing is suppressed for them any more *)
 Definition lookup_class (genes : list gene) : Z :=
   if existsb (fun g => bridges (gloc g)) genes then 2 else 1.
 
@@ -395,15 +423,11 @@ Definition ops_areas (ops : list op) : list area :=
 
 Definition area_simple (a : area) : bool := query_ok (aloc a) && (0 <=? lstart (aloc a)).
 
-(* guard of C08_membership_order_independent (the two recorded look-up classes are excluded):
-   every gene is one non-empty part; no gene is strictly nested in another (any two genes are ordered the same way
-   by start and by end - for single-part genes this is "sorted by Feature.__lt__ the ends are non-decreasing");
-   every area is one non-empty part starting at >= 0 and enters the record without members; identifiers are
-   unique; an area is added through add_region exactly when it is a region *)
-Definition le2b (a b : gene) : bool :=
-  (lstart (gloc a) <=? lstart (gloc b)) && (lend (gloc a) <=? lend (gloc b)).
-Definition chain_ok (genes : list gene) : bool :=
-  forallb (fun a => forallb (fun b => le2b a b || le2b b a) genes) genes.
+(* guard of C08_membership_order_independent: every gene is one non-empty part (genes may be nested in each other, share
+   starts or ends, in any number: since the repair of F13a the look-up finds them all); every area is one non-empty
+   part starting at >= 0 and enters the record without members; identifiers are unique; an area is added through
+   add_region exactly when it is a region.  Multi-exon and origin-crossing genes stay outside (the window of
+   _link_cds_to_parent is proved for single-part genes only). *)
 Definition area_fresh (a : area) : bool :=
   match amem a, adef a with [], [] => true | _, _ => false end.
 Definition op_kind_ok (o : op) : bool :=
@@ -415,7 +439,7 @@ Definition op_kind_ok (o : op) : bool :=
 Definition history_guard (ops : list op) : bool :=
   let genes := ops_genes ops in
   let areas := ops_areas ops in
-  forallb simple_gene genes && chain_ok genes && unique_ids (map gid genes)
+  forallb simple_gene genes && unique_ids (map gid genes)
   && forallb area_simple areas && forallb area_fresh areas && unique_ids (map aid areas)
   && forallb op_kind_ok ops.
 
